@@ -1083,6 +1083,8 @@ class Interp:
                 return SymTable({c: Arr(k.dims + tuple(a.dims[1:]), alg.mk_fn('at', B(v.label, a.poly), P(k.poly)), unit=a.unit) for c, a in v.cols.items()}, k.dims[0])
             if isinstance(k, Pinned):
                 return {c: Arr(tuple(a.dims[1:]), a.poly, unit=a.unit) for c, a in v.cols.items()}
+            if isinstance(k, Arr) and k.ndim == 1 and _is_boolean(k.poly):
+                raise LabelClash('row mask over axis %r applied to a table whose rows are axis %r in %s' % (k.dims[0], v.label, up(e)))
             return Unk('table index %r' % (k,), e)
         if isinstance(v, Shape):
             k = self.expr(e.slice, env, mod)
